@@ -305,4 +305,41 @@ Proof.
   - apply MStar_one, M_tick.
   - apply MStar_one, M_ghost. unfold same_entities; cbn; repeat split.
 Qed.
+
+(* ---------- every macro step keeps the vehicle map keyed by id; invariants lift from macro steps to histories ---------- *)
+Lemma vkeys_of_same s s' : vehicles s' = vehicles s -> vkeys s -> vkeys s'.
+Proof. intros V K. unfold vkeys. rewrite V. exact K. Qed.
+Lemma mstep_vkeys s s' : vkeys s -> MStep s s' -> vkeys s'.
+Proof.
+  intros K M. destruct M.
+  - apply (proj1 (transition_vonly _ _ _ _ _ H0 K)).
+  - apply (proj1 (perform_update_vonly _ _ _ _ H0 K)).
+  - destruct (cancel_one_spec env s rid) as [E|(r & _ & _ & _ & _ & V)]; [rewrite E; exact K|]. eapply vkeys_of_same; eauto.
+  - unfold admit_request. repeat (match goal with |- context [if ?c then _ else _] => destruct c end; try exact K).
+    destruct (add_request env s r) as [a| |] eqn:E; try exact K.
+    assert (V : vehicles a = vehicles s).
+    { unfold add_request in E. destruct (find (r_id r) (requests s)).
+      - apply modify_request_spec in E. intuition.
+      - unfold add_request_new in E. destruct (negb _); [discriminate|]. inv E. reflexivity. }
+    unfold vkeys, emit. cbn. rewrite V. exact K.
+  - unfold update_station_prices. destruct (find sid (stations s)); [|exact K].
+    destruct (modify_station env s _) eqn:E; try exact K. apply modify_station_spec in E. destruct E as (_ & _ & V & _). eapply vkeys_of_same; eauto.
+  - destruct (driver_update_vstep env (dt s) rt s v s' H eq_refl K) as (_ & K' & _). exact K'.
+  - destruct H as (V & _). eapply vkeys_of_same; eauto.
+  - exact K.
+Qed.
+
+Lemma mstar_invariant (P : Sim -> Prop) : (forall s s', vkeys s -> P s -> MStep s s' -> P s') ->
+  forall s s', MStar s s' -> vkeys s -> P s -> vkeys s' /\ P s'.
+Proof.
+  intros Hstep s s' M. induction M as [|s1 s2 s3 M _ IH]; intros K I; [auto|]. apply IH; [eapply mstep_vkeys; eauto|eapply Hstep; eauto].
+Qed.
+
+Theorem history_invariant (P : Sim -> Prop) : (forall s s', vkeys s -> P s -> MStep s s' -> P s') ->
+  forall ops s0, vkeys s0 -> P s0 -> Forall op_ok ops -> vkeys (fold_left (step_op env) ops s0) /\ P (fold_left (step_op env) ops s0).
+Proof.
+  intros Hstep. induction ops as [|o ops IH]; intros s0 K I Hok; cbn [fold_left]; [auto|].
+  inversion Hok; subst.
+  destruct (mstar_invariant P Hstep _ _ (step_op_macro s0 o K H1) K I) as [K1 I1]. apply IH; auto.
+Qed.
 End M.
